@@ -828,3 +828,146 @@ Proof.
       apply rel0_fold_sessions. intros hh y. apply rel0_send_session.
   - apply rel_of_rel0, rel0_deliver_at.
 Qed.
+
+(* ------------------------------------------------------------------ one step, including the cut of a connection *)
+(* D: the connection was cut; the queue is kept (and may grow after the cut, within a quiescent step) *)
+Definition sessD (s s' : session) : Prop := s_conn s' = None /\ exists l, s_pending s' = s_pending s ++ l.
+
+Record srel (sid : N) (h h' : hub) : Prop := {
+  s_next : h_nextsid h <= h_nextsid h';
+  s_born : get_sess h sid = None -> forall s', get_sess h' sid = Some s' ->
+           h_nextsid h < sid <= h_nextsid h' /\ (s_conn s' <> None -> s_pending s' = []);
+  s_core : sid <= h_nextsid h -> forall s', get_sess h' sid = Some s' ->
+           (exists s, get_sess h sid = Some s /\ (sessA s s' \/ sessD s s')) \/ sessB s';
+}.
+
+Lemma srel_of_rel sid h h' : rel sid h h' -> srel sid h h'.
+Proof.
+  intros [Hn Hb Hc]. constructor; [exact Hn|exact Hb|].
+  intros Hle s' Hs'. destruct (Hc Hle s' Hs') as [[s [Hs HA]]|HB]; [left; exists s; auto|now right].
+Qed.
+
+Lemma srel_then_rel0 sid h hm h' : srel sid h hm -> rel0 sid hm h' -> srel sid h h'.
+Proof.
+  intros [Hn Hb Hc] [Hn0 Hc0]. constructor.
+  - rewrite Hn0. exact Hn.
+  - intros Hd s' Hs'. destruct (Hc0 s' Hs') as [sm [Hsm [Hcm [l [Hpm Hlm]]]]].
+    destruct (Hb Hd sm Hsm) as [Hbounds Hq]. split; [rewrite Hn0; exact Hbounds|].
+    intros Hne. assert (Hne' : s_conn sm <> None) by congruence. rewrite Hpm, (Hq Hne'), (Hlm Hne'). reflexivity.
+  - intros Hle s' Hs'. destruct (Hc0 s' Hs') as [sm [Hsm HAm]].
+    destruct (Hc Hle sm Hsm) as [[s [Hs [HA|[HDc [l1 HDp]]]]]|[HBc HBp]].
+    + left. exists s. split; [exact Hs|]. left. eapply sessA_trans; eauto.
+    + left. exists s. split; [exact Hs|]. right. destruct HAm as [Hcm [l2 [Hpm _]]].
+      split; [congruence|]. exists (l1 ++ l2). rewrite Hpm, HDp. now rewrite app_assoc.
+    + right. destruct HAm as [Hcm [l2 [Hpm Hlm]]]. split; [congruence|]. rewrite Hpm, HBp, (Hlm HBc). reflexivity.
+Qed.
+
+Lemma drop_nextsid h c : h_nextsid (fst (step h (ODrop c))) = h_nextsid h.
+Proof.
+  cbn [step]. destruct (aget (h_conns h) c) as [cn|]; [|reflexivity].
+  destruct (c_sess cn) as [x|]; [|reflexivity].
+  destruct (get_sess (set_conns h (adel (h_conns h) c)) x); reflexivity.
+Qed.
+
+Lemma drop_sess h c sid s' :
+  get_sess (fst (step h (ODrop c))) sid = Some s' ->
+  exists s, get_sess h sid = Some s /\ s_pending s' = s_pending s /\ (s_conn s' = s_conn s \/ s_conn s' = None).
+Proof.
+  cbn [step]. destruct (aget (h_conns h) c) as [cn|]; [|cbn [fst]; intros H; exists s'; auto].
+  destruct (c_sess cn) as [x|]; [|cbn [fst]; intros H; exists s'; auto].
+  destruct (get_sess (set_conns h (adel (h_conns h) c)) x) as [s|] eqn:Hs; [|cbn [fst]; intros H; exists s'; auto].
+  cbn [fst]. intros H. change (get_sess h x = Some s) in Hs.
+  change (aget (aset (h_sessions h) x (sess_conn s None)) sid = Some s') in H. rewrite aget_aset in H.
+  destruct (N.eqb_spec sid x) as [->|Hne].
+  - injection H as <-. exists s. auto.
+  - exists s'. auto.
+Qed.
+
+Lemma srel_drop sid h c : srel sid h (fst (step h (ODrop c))).
+Proof.
+  constructor.
+  - rewrite drop_nextsid. lia.
+  - intros Hd s' Hs'. destruct (drop_sess h c sid s' Hs') as [s [Hs _]]. congruence.
+  - intros _ s' Hs'. destruct (drop_sess h c sid s' Hs') as [s [Hs [Hp [Hc|Hc]]]]; left; exists s; (split; [exact Hs|]).
+    + left. now apply sessA_same.
+    + right. split; [exact Hc|]. exists []. now rewrite app_nil_r.
+Qed.
+
+Lemma srel_step sid h o : srel sid h (fst (step h o)).
+Proof.
+  destruct o; try (apply srel_of_rel, rel_step; intros c0 E; discriminate E). apply srel_drop.
+Qed.
+
+(* both semantics at once: q = false is step / run, q = true the quiescent qstep / qrun *)
+Definition stepx (q : bool) (h : hub) (o : op) : hub * list out := if q then qstep h o else step h o.
+Fixpoint runx (q : bool) (h : hub) (ops : list op) : hub :=
+  match ops with [] => h | o :: r => runx q (fst (stepx q h o)) r end.
+
+Lemma runx_run h ops : runx false h ops = run h ops.
+Proof. revert h. induction ops as [|o r IH]; intros h; cbn; [reflexivity|apply IH]. Qed.
+Lemma runx_qrun h ops : runx true h ops = qrun h ops.
+Proof. revert h. induction ops as [|o r IH]; intros h; cbn; [reflexivity|apply IH]. Qed.
+Lemma runx_app q ops1 : forall h ops2, runx q h (ops1 ++ ops2) = runx q (runx q h ops1) ops2.
+Proof. induction ops1 as [|o r IH]; intros h ops2; cbn; [reflexivity|apply IH]. Qed.
+
+Lemma qstep_fst h o : fst (qstep h o) = fst (drain 500 (fst (step h o))).
+Proof. unfold qstep. destruct (step h o) as [h1 o1]. cbn [fst snd]. destruct (drain 500 h1) as [h2 o2]. reflexivity. Qed.
+Lemma qstep_snd h o : snd (qstep h o) = snd (step h o) ++ snd (drain 500 (fst (step h o))).
+Proof. unfold qstep. destruct (step h o) as [h1 o1]. cbn [fst snd]. destruct (drain 500 h1) as [h2 o2]. reflexivity. Qed.
+
+(* a quiescent step is the step followed by deliveries, which create no session *)
+Lemma stepx_after_step q sid h o : rel0 sid (fst (step h o)) (fst (stepx q h o)).
+Proof. destruct q; cbn [stepx]; [rewrite qstep_fst; apply rel0_drain|apply rel0_refl]. Qed.
+Lemma stepx_out q h o : exists rest, snd (stepx q h o) = snd (step h o) ++ rest.
+Proof. destruct q; cbn [stepx]; [rewrite qstep_snd; eauto|exists []; now rewrite app_nil_r]. Qed.
+
+Lemma srel_stepx q sid h o : srel sid h (fst (stepx q h o)).
+Proof. eapply srel_then_rel0; [apply srel_step|apply stepx_after_step]. Qed.
+
+Lemma wf_stepx q h o : WF h -> WF (fst (stepx q h o)).
+Proof. destruct q; cbn [stepx]; [apply wf_qstep|apply wf_step]. Qed.
+
+(* ------------------------------------------------------------------ the invariant of every history *)
+Record Inv (h : hub) : Prop := {
+  (* every id in use was handed out by the counter: ids of ended sessions are never handed out again *)
+  inv_ids : forall sid, live h sid -> sid <= h_nextsid h;
+  (* a session with a connection has nothing queued *)
+  inv_conn : forall sid s, get_sess h sid = Some s -> s_conn s <> None -> s_pending s = [];
+}.
+
+Lemma inv_init limits gated : Inv (init limits gated).
+Proof. constructor; unfold init, live, get_sess; cbn; [intros sid [s H]|intros sid s H]; discriminate. Qed.
+
+Lemma inv_srel h h' : Inv h -> (forall sid, srel sid h h') -> Inv h'.
+Proof.
+  intros [Hi Hq] R. constructor.
+  - intros sid [s' Hs']. destruct (R sid) as [Hn Hb Hc].
+    destruct (get_sess h sid) as [s|] eqn:Hs.
+    + assert (sid <= h_nextsid h) by (apply Hi; eexists; exact Hs). lia.
+    + destruct (Hb eq_refl s' Hs') as [[_ Hle] _]. exact Hle.
+  - intros sid s' Hs' Hne. destruct (R sid) as [Hn Hb Hc].
+    assert (Hcase : (exists s, get_sess h sid = Some s) \/ get_sess h sid = None) by (destruct (get_sess h sid); eauto).
+    destruct Hcase as [[s Hs]|Hd].
+    + assert (Hle : sid <= h_nextsid h) by (apply Hi; eexists; exact Hs).
+      destruct (Hc Hle s' Hs') as [[s0 [Hs0 [[Hc0 [l [Hp Hl]]]|[Hc0 _]]]]|[_ Hp]]; [| |exact Hp].
+      * assert (Hne0 : s_conn s0 <> None) by congruence. rewrite Hp, (Hq sid s0 Hs0 Hne0), (Hl Hne0). reflexivity.
+      * contradiction.
+    + destruct (Hb Hd s' Hs') as [_ Hq']. now apply Hq'.
+Qed.
+
+Lemma inv_stepx q h o : Inv h -> Inv (fst (stepx q h o)).
+Proof. intros I. apply (inv_srel h); [exact I|]. intros sid. apply srel_stepx. Qed.
+
+Definition Good (h : hub) : Prop := WF h /\ Inv h.
+
+Lemma good_init limits gated : Good (init limits gated).
+Proof. split; [apply wf_init|apply inv_init]. Qed.
+Lemma good_stepx q h o : Good h -> Good (fst (stepx q h o)).
+Proof. intros [W I]. split; [now apply wf_stepx|now apply inv_stepx]. Qed.
+Lemma good_runx q ops : forall h, Good h -> Good (runx q h ops).
+Proof. induction ops as [|o r IH]; intros h G; cbn [runx]; [exact G|]. apply IH. now apply good_stepx. Qed.
+
+Theorem reachable_good h : reachable h -> Good h.
+Proof. intros (l & g & ops & ->). rewrite <- runx_run. apply good_runx, good_init. Qed.
+Theorem reachable_q_good h : reachable_q h -> Good h.
+Proof. intros (l & g & ops & ->). rewrite <- runx_qrun. apply good_runx, good_init. Qed.
